@@ -174,6 +174,16 @@ def oTap (tag : Nat) (src : Obsv) : Obsv := fun s =>
     (fun sc _ e => .obsError t e (sc.sinkError e))
     (fun sc serial => .obsComplete t (sc.sinkComplete serial)) s
 
+/-- a tap whose item / error callback ends subscription `k` after recording (harness: `tap_unsub`) -/
+def oTapUnsub (tag k : Nat) (src : Obsv) : Obsv := fun s =>
+  .obsNew (fun d => .probe (tag * 4 + 2) (.mNext d) (.userUnsub k .done))
+    (fun e => .probe (tag * 4 + 2) (.mErr e) (.userUnsub k .done))
+    (.probe (tag * 4 + 2) .mComplete .done) fun t =>
+  fwdOp src
+    (fun sc _ x => .obsNext t x (sc.sinkNext x))
+    (fun sc _ e => .obsError t e (sc.sinkError e))
+    (fun sc serial => .obsComplete t (sc.sinkComplete serial)) s
+
 /-! ### multi-source operators -/
 
 def subscribeAll : List (Obsv × Nat) → Prog
@@ -367,6 +377,36 @@ def oOnErrorResumeNext (f : Nat → Obsv) (src : Obsv) : Obsv :=
   fwdOp src (fun sc _ x => sc.sinkNext x)
     (fun sc serial e =>
       sc.abortObserve serial ;;
+      sc.newObserver (fun _ xx => sc.sinkNext xx) (fun _ ee => sc.sinkError ee)
+        (fun serial => sc.sinkComplete serial) fun o => (f e).sub o)
+
+/-! ### the closure given to the operator ends subscription `k` when it is called (harness: `*_u`)
+The Rust closures call the user's function first (`f.call(x)`, `predicate.call(e)`), then `new_observer`. -/
+
+def oFlatMapU (k : Nat) (f : Data → Obsv) (src : Obsv) : Obsv :=
+  fwdOp src fun sc _ x =>
+    .userUnsub k .done ;;
+    sc.newObserver (fun _ xx => sc.sinkNext xx) (fun _ ee => sc.sinkError ee)
+      (fun serial => sc.sinkComplete serial) fun o => (f x).sub o
+
+def retryWhenSubscribeU (k : Nat) (sc : Sctl) (src : Obsv) (p : EPred) : Nat → Prog
+  | 0 => .done
+  | fuel+1 =>
+    sc.newObserver (fun _ x => sc.sinkNext x)
+      (fun serial e =>
+        .userUnsub k .done ;;
+        (if p.app e then sc.abortObserve serial ;; retryWhenSubscribeU k sc src p fuel
+         else sc.sinkError e))
+      (fun serial => sc.sinkComplete serial) fun o => src.sub o
+
+def oRetryWhenU (k : Nat) (p : EPred) (src : Obsv) : Obsv := fun s =>
+  sctlNew s fun sc => retryWhenSubscribeU k sc src p 100000
+
+def oOnErrorResumeNextU (k : Nat) (f : Nat → Obsv) (src : Obsv) : Obsv :=
+  fwdOp src (fun sc _ x => sc.sinkNext x)
+    (fun sc serial e =>
+      sc.abortObserve serial ;;
+      .userUnsub k .done ;;
       sc.newObserver (fun _ xx => sc.sinkNext xx) (fun _ ee => sc.sinkError ee)
         (fun serial => sc.sinkComplete serial) fun o => (f e).sub o)
 
